@@ -34,6 +34,13 @@ HOT_SCRIPTS = [
     ["(a c)", "u", "closed closed"],
 ]
 
+SHARE_SCRIPTS = [
+    ["(sub 0) (a (n 1)) (unsub 0)", "(sub 1) (a (n 2))"],
+    ["(sub 0) (a (n 1))", "(sub 1) (unsub 1)", "(a (n 2))"],
+    ["(sub 0) (unsub 0) (sub 2)", "(sub 1) (a (n 1)) (a c)"],
+    ["(sub 0) (a (n 1)) (a (e 3))", "(sub 1) (unsub 1) (sub 2)"],
+]
+
 FIN_SCRIPTS = [
     ["(a (n 1)) (a c)", "u"],
     ["(a (e 3))", "u"],
@@ -42,7 +49,7 @@ FIN_SCRIPTS = [
 ]
 
 
-def cases(tier, rng, prefix="j", kinds=("op2", "flat", "fin", "hot"), only_unsub=False):
+def cases(tier, rng, prefix="j", kinds=("op2", "flat", "fin", "hot", "share"), only_unsub=False):
     cs = []
     n = 0
     def add(pipe, threads, klass):
@@ -84,6 +91,9 @@ def cases(tier, rng, prefix="j", kinds=("op2", "flat", "fin", "hot"), only_unsub
     if "fin" in kinds:
         for th in FIN_SCRIPTS:
             add("(fin)", th, "fin")
+    if "share" in kinds and not only_unsub:
+        for th in SHARE_SCRIPTS:
+            add("(share)", th, "share")
     if "hot" in kinds and not only_unsub:
         for th in HOT_SCRIPTS:
             add("(hot)", th, "hot")
@@ -92,7 +102,8 @@ def cases(tier, rng, prefix="j", kinds=("op2", "flat", "fin", "hot"), only_unsub
 
 RULE = ("real threads on pipelines of thread-safe operators under explicit schedules (the controller of the subject interleavings): merge, zip, "
         "combine_latest, with_latest_from, take_until, skip_until, sample over two SubjectThreads inputs x %d sets of thread scripts, and "
-        "merge_all_threads(1 | 2 | unbounded) over hot and synchronous inner observables x %d sets, finalize_threads with a terminating "
+        "merge_all_threads(1 | 2 | unbounded) over hot and synchronous inner observables x %d sets, share_threads with subscribers joining "
+        "and leaving while the source emits (connected at most once, each item at most once per subscriber), finalize_threads with a terminating "
         "and an unsubscribing thread, an unsubscribing thread included throughout; every "
         "schedule with <= 2 (thorough 3) context switches plus random ones; judged for deadlock, panic, a call that does not return, overlapping "
         "callbacks, the notification grammar, silence after unsubscribe() returned, every inner observable's items at most once and in order, "
